@@ -39,22 +39,31 @@ def ops_len(body):
         t = b["term"]
         if t["k"] == "call" and (t["ncallee"] or "").endswith("BTreeSet::len") and op_local(t["args"][0]) in Taint(body).closure(reads):
             out.add(t["d"][0])
-    # also when the length travels as a component of a tuple (`match (self.ops.len(), entry.len()) { (n, _) if n >= MAX => … }`)
-    tup = set()
-    for b in body.blocks:
-        for st in b["stmts"]:
-            if st["rv"]["k"] == "agg" and st["rv"].get("ak") == "tuple" and len(st["d"]) == 1:
-                for i_, o in enumerate(st["rv"]["ops"]):
-                    if op_local(o) in Taint(body).closure(out):
-                        tup.add((st["d"][0], ".%d" % i_))
-    more = set()
-    for b in body.blocks:
-        for st in b["stmts"]:
-            rv = st["rv"]
-            p = rv["a"][1] if rv["k"] == "use" and rv["a"][0] in ("cp", "mv") else None
-            if p and len(p) == 2 and (p[0], p[1]) in tup and len(st["d"]) == 1:
-                more.add(st["d"][0])
-    return Taint(body).closure(out | more)
+    # copies, references and — component-precise — tuples: `match (self.ops.len(), entry.len()) { (n, _) if n >= MAX => … }` carries the
+    # length as component 0 only
+    vals, comps = set(out), set()
+    changed = True
+    while changed:
+        changed = False
+        for b in body.blocks:
+            for st in b["stmts"]:
+                if len(st["d"]) != 1:
+                    continue
+                d, rv = st["d"][0], st["rv"]
+                if rv["k"] == "agg" and rv.get("ak") == "tuple":
+                    for i_, o in enumerate(rv["ops"]):
+                        if op_local(o) in vals and (d, ".%d" % i_) not in comps:
+                            comps.add((d, ".%d" % i_))
+                            changed = True
+                    continue
+                p = rv["a"][1] if rv["k"] in ("use", "cast") and rv["a"][0] in ("cp", "mv") else rv.get("p") if rv["k"] == "ref" else None
+                if not p or d in vals:
+                    continue
+                proj = [e for e in p[1:] if e != "*"]
+                if (not proj and p[0] in vals) or (len(proj) == 1 and (p[0], proj[0]) in comps):
+                    vals.add(d)
+                    changed = True
+    return vals
 
 
 def accept_relation(F, body, sink_blocks, lens):
